@@ -31,6 +31,7 @@ def parse(name):
 
 def compile_witness(ctx, name, meta):
     cfg = meta["config"]
+    extract.ensure_target_current(cfg)
     fdir = ctx.facts_dir(cfg)
     rmeta = os.path.join(fdir, "libspecs.rmeta")
     deps = os.path.join(extract.CACHE, "target", cfg, "debug", "deps")
